@@ -33,7 +33,10 @@ class Model:
         self.calls.append((np.array(theta, dtype=float).copy(), int(N), int(seed)))
         if self.fail_at is not None and k == self.fail_at:
             raise RuntimeError(f"injected model failure at call {k}")
-        return self.run(theta, N, seed)
+        out = self.run(theta, N, seed)
+        if self.kind == "mutating":       # writes into the vector it was handed (after using it)
+            theta[0] = -1.0
+        return out
 
     def run(self, theta, N, seed):
         rng = np.random.default_rng(int(seed))
@@ -44,6 +47,14 @@ class Model:
 
 
 def pure_model(theta, N, seed):
+    rng = np.random.default_rng(int(seed))
+    return rng.normal(theta[0], 1.0 + abs(theta[-1]), (N, 1))
+
+
+def clamping_model(theta, N, seed):
+    """A user model that normalises the parameter vector it is handed IN PLACE before simulating (legal: the vector is
+    the model's own argument) - the recorded history must not depend on it, whatever n_jobs is."""
+    theta[0] = min(theta[0], 0.5)
     rng = np.random.default_rng(int(seed))
     return rng.normal(theta[0], 1.0 + abs(theta[-1]), (N, 1))
 
